@@ -399,7 +399,11 @@ class RefParser:
             return self.parse_union(T, data, pos)
         raise ValueError(T)
 
-    def parse_leb(self, signed, data, pos, canonical=True):
+    canonical_leb = True   # restrict LEB128 input to the minimal encoding (what dumps() writes back); parse-only harnesses lift it
+
+    def parse_leb(self, signed, data, pos, canonical=None):
+        if canonical is None:
+            canonical = self.canonical_leb
         result = 0
         shift = 0
         start = pos
@@ -470,9 +474,14 @@ class RefParser:
             rem = len(data) - pos
             if es == 0:
                 return self._join(ET, elems, data), pos
-            if rem % es:
+            count, left = rem // es, rem % es
+            if left and left >= self._data_extent(ET, es):
+                # every member of one more element is there, only (part of) its tail padding is cut off by the end of the
+                # input: padding is never read (seeking past the end is not a read), so the element is whole
+                count += 1
+            elif left:
                 self.partial_eof = True
-            for _ in range(rem // es):
+            for _ in range(count):
                 v, pos = self.parse(ET, data, pos, env)
                 elems.append(v)
             return self._join(ET, elems, data), pos
@@ -491,6 +500,20 @@ class RefParser:
             v, pos = self.parse(ET, data, pos, env)
             elems.append(v)
         return self._join(ET, elems, data), pos
+
+    def _data_extent(self, ET, es):
+        """Bytes of a fixed-size element up to the end of its last member (= its size unless it is an aligned structure
+        with tail padding)."""
+        if not self.align or ET[0] != "struct":
+            return es
+        offs, size, _ = self.layout.struct_layout(ET)
+        end = 0
+        for (off, _unit), (_, FT, bits) in zip(offs, ET[2]):
+            fs = self.layout.size_align(FT)[0]
+            if off is None or fs is None:
+                return es
+            end = max(end, off + fs)
+        return end or es
 
     def _lookup(self, name, env):
         if env is not None and name in env:
